@@ -98,7 +98,9 @@ def construct_token_dictionary_and_frequency(token_sequence, token_dictionary=No
     ]
     # float64: the bounds they are compared with in prune_token_dictionary are float64
     # quotients of the same integers (count == bound must compare equal for every total)
-    token_counts = np.bincount(index_list).astype(np.float64)
+    token_counts = np.bincount(index_list, minlength=len(token_dictionary)).astype(
+        np.float64
+    )
 
     token_frequency = token_counts / n_tokens
 
